@@ -11,7 +11,15 @@
      64   every violated out-constraint of the current block is in its out-heap
      128  after mergeRight(r): every slack >= 0 exactly
      256  after mergeRight(r): no variable is to the left of the state after mergeLeft(l)
-     512  the constraint split on has both ends in the split block and is active *)
+     512  the constraint split on has both ends in the split block and is active
+     1024 at every state of mergeLeft(l)'s loop inside split (current block M): every constraint with both or neither end
+          in M has slack >= 0, and slack(i) + slack(o) >= 0 for every in-constraint i and out-constraint o of M
+          (the "pair" invariant J: it survives the merge of the not-yet-optimal right half r into M)
+     2048 at every state of mergeRight's loop (current block N): the same, and every in-constraint of N has slack >= 0
+          (invariant I2: what makes the pull to the left by a merged right neighbour harmless)
+   Bits 4, 8 and 256 are the NAIVE candidates; they are FALSE on reachable DAG states (r is merged into l's block by
+   mergeLeft(l) when a constraint from r's side to l's side becomes violated, the merged block then moves right and its
+   out-constraints are repaired by mergeRight) - bits 1024/2048 are the invariants that do hold. *)
 From Adapt Require Import Num.Qaux Vpsc.VpscSpec Vpsc.VpscModel Vpsc.VpscInv Vpsc.StaticModel Vpsc.StaticInvB.
 Local Open Scope Q_scope.
 
@@ -35,11 +43,49 @@ Definition out_heapb (s : sst) (l : nat) : bool :=
   | None => true
   end.
 
+Definition restb (s : sst) (N : nat) : bool :=
+  forallb (fun c => xorb (Nat.eqb (lblk s c) N) (Nat.eqb (rblk s c) N) || Qleb 0 (sslack s c))
+          (seq 0 (length (scons (base s)))).
+Definition pairb (s : sst) (N : nat) : bool :=
+  forallb (fun i => forallb (fun o => Qleb 0 (sslack s i + sslack s o)) (out_cons s N)) (in_cons s N).
+Definition insatb (s : sst) (N : nat) : bool := forallb (fun i => Qleb 0 (sslack s i)) (in_cons s N).
+Definition Jb (s : sst) (N : nat) : bool := restb s N && pairb s N.
+Definition I2b (s : sst) (N : nat) : bool := restb s N && pairb s N && insatb s N.
+
+(* ml_loop inside split, with J evaluated at every tested state *)
+Fixpoint ml_loop_J (fuel : nat) (s : sst) (r : nat) (c : option nat) (mask : nat) : res sst * nat :=
+  match fuel with
+  | O => (OutOfFuel, mask)
+  | S f =>
+      let mask1 := mor mask (bitv (Jb s r) 1024) in
+      match c with
+      | None => (Ok s, mask1)
+      | Some c0 =>
+          let s0 := snote_slack TIE_EPS s c0 0 in
+          if Qltb (sslack s0 c0) 0 then
+            match ml_body s0 r c0 with
+            | Ok (s', r', c') => ml_loop_J f s' r' c' mask1
+            | ThrowUnsat x => (ThrowUnsat x, mask1)
+            | OutOfFuel => (OutOfFuel, mask1)
+            end
+          else (Ok s0, mask1)
+      end
+  end.
+Definition merge_left_J (s : sst) (r : nat) (mask : nat) : res sst * nat :=
+  let s1 := set_ctr s (S (ctr s)) in
+  let s2 := set_btime s1 (upd_nth (btime s1) r (ctr s1)) in
+  let s3 := set_up_heap true s2 r in
+  match find_min_in s3 r with
+  | Ok p => ml_loop_J (loop_fuel s) (fst p) r (snd p) mask
+  | ThrowUnsat x => (ThrowUnsat x, mask)
+  | OutOfFuel => (OutOfFuel, mask)
+  end.
+
 Fixpoint mr_loop_chk (fuel : nat) (s : sst) (l : nat) (c : option nat) (mask : nat) : res sst * nat :=
   match fuel with
   | O => (OutOfFuel, mask)
   | S f =>
-      let mask1 := mor mask (bitv (root_min_outb s l c) 32 + bitv (out_heapb s l) 64)%nat in
+      let mask1 := mor mask (bitv (root_min_outb s l c) 32 + bitv (out_heapb s l) 64 + bitv (I2b s l) 2048)%nat in
       match c with
       | None => (Ok s, mask1)
       | Some c0 =>
@@ -77,8 +123,8 @@ Definition static_split_chk (s : sst) (b c : nat) (mask : nat) : res sst * nat :
                               forallb (fun v => Nat.eqb (blk_of (base s3) v) l ||
                                                 Qeqb (position (base s3) v) (nth v Yb 0))
                                       (seq 0 (length (svars (base s3))))) 2) in
-      match merge_left s3 l with
-      | Ok s4 =>
+      match merge_left_J s3 l m1 with
+      | (Ok s4, m1) =>
           let Yc := spos s4 in
           let m2 := mor m1 (bitv (all_satb s4) 4 + bitv (all_leb Yc Yb) 8)%nat in
           let r' := rblk s4 c in
@@ -91,8 +137,8 @@ Definition static_split_chk (s : sst) (b c : nat) (mask : nat) : res sst * nat :
           | (ThrowUnsat x, m4) => (ThrowUnsat x, m4)
           | (OutOfFuel, m4) => (OutOfFuel, m4)
           end
-      | ThrowUnsat x => (ThrowUnsat x, m1)
-      | OutOfFuel => (OutOfFuel, m1)
+      | (ThrowUnsat x, m1) => (ThrowUnsat x, m1)
+      | (OutOfFuel, m1) => (OutOfFuel, m1)
       end
   | ThrowUnsat x => (ThrowUnsat x, m0)
   | OutOfFuel => (OutOfFuel, m0)
